@@ -354,6 +354,9 @@ def _trunc_nodes():
         [('page', ':first', ['margin:0 1px', 'x:a'], [('top-left', ['x:a'])]), st2],
         [('import', 'x.css', 'string', ['print'], None), ('namespace', 'p', 'http://p', 'string'), ('style', ['p|a'], ['x:a', 'color:#f00']), ('comment', 'k'), st2],
         [('font-face', ['font-family:a,b', 'unicode-range:U+1-FF']), ('unknown', '{'), st1],
+        # blocks inside blocks: the end of input closes all of them
+        [('media', ['print'], [('style', ['a'], ['color:red']), ('media', ['not tv'], [('style', ['a b'], ['x:a', 'color:#f00']), ('style', ['a'], ['x:a'])]),
+                               ('style', ['a>b'], ['x:a'])]), st2],
     ]
 
 
@@ -436,8 +439,31 @@ def run_truncation(res, ti, which):
                 have = _decls_of(cutrule)
                 if have is None or tuple(have[:len(done)]) != tuple(done):
                     res.violation('C04.truncation', f'complete-declaration-lost|cut-inside={kinds[ri]}', case, list(done), list(have) if have is not None else None, size=cut)
+            if kinds[ri] == 'media' and len(got) > len(exp_complete):
+                # the rules inside the block that were complete before the cut (at every depth)
+                res.clauses['C04.truncation.nested'] += 1
+                bad = _nested_complete(node.rules[ri], got[len(exp_complete)], dict((tag[1], off) for tag, off in marks if tag[0] == 'nested-end'), cut, 1)
+                if bad:
+                    res.violation('C04.truncation', f'complete-nested-rule-lost|depth={bad[0]}|cut-inside=media', case, bad[1], bad[2], size=cut)
         res.outcomes.add(h64((ti, len(got), n_complete)))
     res.sample({'kind': 'truncation', 'sheet': ti, 'spelling': which, 'cut': len(text) // 2, 'text': text[:len(text) // 2]})
+
+
+def _nested_complete(mnode, got, ends, cut, depth):
+    """-> None | (depth, expected complete children, children found): the children of the (cut) @media block that end before
+    the cut are its first children in the DOM; the child being cut is looked into if it is an @media block itself"""
+    if not (isinstance(got, tuple) and got and got[0] == 'media'):
+        return (depth, 'an @media rule', got)
+    done = [r for r, k in zip(mnode.rules, mnode.ends) if ends[k] <= cut]
+    want = tuple(A.strip_comments_expected(tuple(r.expected for r in done if r.kind not in ('comment', 'unknown'))))
+    have = strip_unknown_top(got[2])
+    if tuple(have[:len(want)]) != want:
+        return (depth, list(want), list(have))
+    if len(done) < len(mnode.rules):
+        nxt = mnode.rules[len(done)]
+        if nxt.kind == 'media' and len(have) > len(want):
+            return _nested_complete(nxt, have[len(want)], ends, cut, depth + 1)
+    return None
 
 
 def strip_unknown_top(p):
